@@ -25,7 +25,7 @@ def dist_opts(rng, labels):
 
 def run_c04(tier, seed, rep, only_prop=False, scale=1):
     import impl_layout as I
-    n1, n2, n3 = (700, 250, 120) if tier == "quick" else tuple(common.count(tier, 0, x) for x in (12000, 4000, 2500))
+    n1, n2, n3 = (700, 250, 120) if tier == "quick" else tuple(common.count(tier, 0, x) for x in (6000, 2000, 1200))
     n1, n2, n3 = n1 * scale, n2 * scale, n3 * scale
     cs = []
     rng = rng_for(seed, "c04-dist")
